@@ -310,10 +310,16 @@ fn build_forward_request(req: &ParsedRequest) -> Result<Vec<u8>> {
     );
     new_request.extend_from_slice(request_line.as_bytes());
 
-    let host_header_value = if req.port == 80 || req.port == 443 {
-        req.host.clone()
+    // an IPv6 literal goes back into brackets (split_host_port removed them)
+    let host = if req.host.contains(':') {
+        format!("[{}]", req.host)
     } else {
-        format!("{}:{}", req.host, req.port)
+        req.host.clone()
+    };
+    let host_header_value = if req.port == 80 || req.port == 443 {
+        host
+    } else {
+        format!("{}:{}", host, req.port)
     };
 
     let mut host_written = false;
